@@ -18,7 +18,14 @@ report, diagnostics (class, position, text) must be equal — for accepted input
 unconfigured / unknown targets, several IDL errors spread over files; set-typed option `default_deriving`);
 the targets each context configures and which "Missing configuration" refusal it gets are predicted by
 the model (`c10.refusal`: registry order filtered by membership, `refusal_set_order_irrelevant`); accepted cases
-are also generated with the targets in reverse order (same bytes); (iii) generated histories on one API
+are also generated with the targets in reverse order (same bytes); a third of the programs (and a seed-independent
+corpus program) carry *explicit target lists that leave several targets* — on inline function types
+(`function +java +cpp (…)`, `function -objc (…)`, `+any -x`, repeated flags, inclusions and exclusions mixed: the list is
+written into the synthetic name of the type, hence into file names and include lines), on records and interfaces — and
+refused programs carry several *unknown* targets in one list (order of the diagnostics); the model (`c10.targets`:
+`targetsOrKeys`, `evalFlags_plus_written_order`, `evalFlags_minus_registry_order`; `targets_bySet_leak_order` is the
+counterexample for a computation through a set) predicts every such list, order included, and the declarations every
+parse hands to the generators are compared with it under every hash seed; (iii) generated histories on one API
 object (context reuse, equal and different configurations interleaved, permuted order of all five targets,
 repeated generation, reports, *regeneration* after an edit that keeps every rendered length — members of all
 declarations permuted, same output directory —, sequences of parses of projects in different directories whose
@@ -32,7 +39,8 @@ A failing call is minimised (calls are removed while the difference stays) and k
 the minimal history. Probe: the validated configuration of every context is the same after the last call.
 
 Specification on the implementation's observation: same (files, configuration, target) => same
-{path: digest} and same diagnostics, whatever the hash seed and the call history.
+{path: digest} and same diagnostics, whatever the hash seed and the call history; the target list of a declaration
+(and the leading part of an inline function type's name) is the one the flags spell, in the order they spell it.
 """
 from __future__ import annotations
 
@@ -58,6 +66,10 @@ THEOREMS = [
     "Pydjinni.SysC.sorted_loops_order_irrelevant",
     "Pydjinni.SysC.configuredTargets_perm",
     "Pydjinni.SysC.refusal_set_order_irrelevant",
+    "Pydjinni.SysC.evalFlags_plus_written_order",
+    "Pydjinni.SysC.evalFlags_minus_registry_order",
+    "Pydjinni.SysC.evalFlags_sublist",
+    "Pydjinni.SysC.targets_bySet_leak_order",
     "Pydjinni.SysC.bySet_leaks_order",
     "Pydjinni.SysC.refusal_none_iff",
     "Pydjinni.SysC.wellConfigured_iff_no_refusal",
@@ -190,6 +202,39 @@ def case_options():
         "list_processed_files": "processed.json"}}
 
 
+# explicit target lists that leave several targets: every form, on inline function types (several per interface, equal
+# signatures under different lists), records, interfaces and a named function
+TARGET_LIST_CORPUS = {
+    "proj/main.pydjinni": "shape = record +objc +cpp +java { w: i32; h: i32; } deriving(eq)\n"
+                          "namespace ui_kit {\n"
+                          "  painter = interface +java +cpp {\n"
+                          "    on_draw(cb: function +objc +java +cpp (s: shape) -> bool);\n"
+                          "    on_key(cb: function +cpp +java (code: i32, down: bool));\n"
+                          "    on_key_rev(cb: function +java +cpp (code: i32, down: bool));\n"
+                          "    on_text(cb: function -yaml (t: string) -> i32);\n"
+                          "    on_idle(cb: function +any -cppcli -objc ());\n"
+                          "    on_move(cb: function +cppcli +cpp +cppcli +yaml (dx: f64, dy: f64));\n"
+                          "    on_drop(cb: function +java +objc -java +cpp (n: i64) -> string);\n"
+                          "  }\n"
+                          "}\n"
+                          "hub = interface -yaml -cppcli { add(p: ui_kit.painter); }\n"
+                          "compare = function +objc +cpp (a: shape, b: shape) -> bool;\n",
+}
+TARGET_LIST_CORPUS_SITES = [
+    {"kind": "record", "q": "shape", "flags": ["+objc", "+cpp", "+java"]},
+    {"kind": "interface", "q": "ui_kit.painter", "flags": ["+java", "+cpp"]},
+    {"kind": "inline", "q": None, "flags": ["+objc", "+java", "+cpp"]},
+    {"kind": "inline", "q": None, "flags": ["+cpp", "+java"]},
+    {"kind": "inline", "q": None, "flags": ["+java", "+cpp"]},
+    {"kind": "inline", "q": None, "flags": ["-yaml"]},
+    {"kind": "inline", "q": None, "flags": ["+any", "-cppcli", "-objc"]},
+    {"kind": "inline", "q": None, "flags": ["+cppcli", "+cpp", "+cppcli", "+yaml"]},
+    {"kind": "inline", "q": None, "flags": ["+java", "+objc", "-java", "+cpp"]},
+    {"kind": "interface", "q": "hub", "flags": ["-yaml", "-cppcli"]},
+    {"kind": "function", "q": "compare", "flags": ["+objc", "+cpp"]},
+]
+
+
 def full_run_job(files, root, opts, targets):
     calls = [{"op": "parse", "ctx": 0, "idl": root}] + [{"op": "generate", "gc": 0, "target": t} for t in targets] + [{"op": "report", "gc": 0}]
     return {"files": files, "cwd": ".", "contexts": [opts], "calls": calls, "normalized": True}
@@ -197,12 +242,15 @@ def full_run_job(files, root, opts, targets):
 
 def seed_cases(ctx):
     cases = [(full_run_job(CASE_CORPUS, "proj/main.pydjinni", case_options(), list(sysgen.TARGETS)),
-              {"kind": "corpus: headers that differ only in letter case", "targets": list(sysgen.TARGETS)})]
+              {"kind": "corpus: headers that differ only in letter case", "targets": list(sysgen.TARGETS)}),
+             (full_run_job(TARGET_LIST_CORPUS, "proj/main.pydjinni", case_options(), list(sysgen.TARGETS)),
+              {"kind": "corpus: explicit target lists", "targets": list(sysgen.TARGETS), "target_sites": TARGET_LIST_CORPUS_SITES,
+               "features": ["callback:explicit-targets"]})]
     for i in range(ctx.n(14, 200)):
         r = random.Random(f"{ctx.seed}/c10/seeds/{i}")
         stress = r.choice(["plain", "mixed", "case", "anon"])
         pg = sysgen.ProgGen(r, stress=stress if stress != "case" else "mixed", case_names=(stress == "case"), multi_file=r.random() < 0.3,
-                            with_extern=r.random() < 0.2, max_decls=r.choice([4, 7]))
+                            with_extern=r.random() < 0.2, max_decls=r.choice([4, 7]), fn_targets=(i % 3 == 2))
         prog = pg.program()
         targets = list(sysgen.TARGETS)
         opts = sysgen.make_options(r, targets, out_kind="rel", naming=r.choice(["default", "random"]), report="processed.yaml")
@@ -217,7 +265,8 @@ def seed_cases(ctx):
         if i % 7 == 3:
             # a program with diagnostics: the same errors, in the same order, under every seed
             files[prog["root"]] += "\nbroken = record { a: no_such_type; b: list<also_missing>; }\n"
-        cases.append((full_run_job(files, prog["root"], opts, targets), {"kind": "random:" + stress, "targets": targets, "features": prog["features"]}))
+        cases.append((full_run_job(files, prog["root"], opts, targets), {"kind": "random:" + stress, "targets": targets, "features": prog["features"],
+                                                                       "target_sites": prog.get("target_sites", [])}))
     return cases
 
 
@@ -233,11 +282,12 @@ def refused_cases(ctx):
       missing-glue        >= 1 (mostly >= 2) configured targets lack the section of their glue generator -> `parse` refuses
       invalid-values      several sections carry invalid / missing values                            -> `configure` refuses
       generate-unconfigured  complete configuration, `generate` for targets that are not configured / unknown
-      broken-idl          several unresolvable references / duplicate declarations spread over the files of a program"""
+      broken-idl          several unresolvable references / duplicate declarations spread over the files of a program
+      unknown-targets     declarations whose target list names >= 2 unknown targets (one diagnostic each, in the order written)"""
     cases = []
     for i in range(ctx.n(16, 100)):
         r = random.Random(f"{ctx.seed}/c10/refused/{i}")
-        kind = ["missing-glue", "missing-glue", "invalid-values", "generate-unconfigured", "broken-idl"][i % 5]
+        kind = ["missing-glue", "missing-glue", "invalid-values", "generate-unconfigured", "broken-idl", "unknown-targets"][i % 6]
         pg = sysgen.ProgGen(r, stress="plain", multi_file=(kind == "broken-idl" and r.random() < 0.6), max_decls=r.choice([2, 4]))
         prog = pg.program()
         files = dict(prog["files"])
@@ -276,6 +326,21 @@ def refused_cases(ctx):
             others = [t for t in sysgen.TARGETS if t not in targets] + ["swift", ""]
             calls += [{"op": "generate", "gc": 0, "target": t} for t in r.sample(others, min(2, len(others)))]
             calls += [{"op": "generate", "gc": 0, "target": targets[0]}]
+        elif kind == "unknown-targets":
+            fs = sorted(files)
+            n = 0
+            for k in range(r.choice([2, 3, 4])):
+                unknown = r.sample(["zig", "rust", "swift", "kotlin", "lua", "go", "dart", "perl"], r.choice([2, 2, 3]))
+                flags = ["+" + u for u in unknown] + ["+" + t for t in r.sample(["cpp", "java", "objc"], r.choice([0, 1, 2]))]
+                r.shuffle(flags)
+                if r.random() < 0.25:
+                    flags.append("-" + r.choice(["yaml", "cpp"]))
+                fl = " ".join(flags)
+                n += len(unknown)
+                files[r.choice(fs)] += r.choice([f"\nbad_if{k} = interface {fl} {{ m0(); }}\n", f"\nbad_rec{k} = record {fl} {{ a: i32; }}\n",
+                                                 f"\nbad_holder{k} = interface +cpp {{ m0(cb: function {fl} (x: i32) -> bool); }}\n",
+                                                 f"\nbad_fn{k} = function {fl} (x: i32);\n"])
+            meta["features"] = [f"unknown-targets:{n}"]
         else:
             fs = sorted(files)
             for k in range(r.choice([2, 3])):
@@ -303,6 +368,33 @@ def obs_digest(obs):
         files.update(rec.get("files", {}))
         diags.append(diag_view(rec))
     return {"files": files, "diags": diags, "configured": [m.get("configured_targets") for m in obs["meta"]]}
+
+
+def target_list_fails(sites, predicted, rec):
+    """the target lists a parse hands to the generators against the lists the flags spell (`predicted`, from the model):
+    a named declaration by its qualified name, an inline function type by a declaration that carries the list and whose
+    synthetic name starts with `function_<targets…>_` -> (failures, number of sites compared)"""
+    fails, n = [], 0
+    if not rec.get("ok"):
+        return fails, n
+    defs = rec.get("defs", [])
+    named = {".".join(d["ns"] + [d["name"]]): d for d in defs if not (d["kind"] == "function" and d["anonymous"])}
+    inline = [d for d in defs if d["kind"] == "function" and d["anonymous"]]
+    for site, want in zip(sites, predicted):
+        if site["kind"] == "inline":
+            n += 1
+            head = "function_" + "_".join(want) + "_"
+            if not any(d["targets"] == want and d["name"].startswith(head) for d in inline):
+                near = [d for d in inline if sorted(d["targets"]) == sorted(want)]
+                fails.append({"site": site, "want": want, "got": [(d["name"], d["targets"]) for d in (near or inline)][:3],
+                              "key": "targets:order-not-as-written" if near else "targets:list-differs"})
+        elif site["q"] in named:
+            n += 1
+            got = named[site["q"]]["targets"]
+            if got != want:
+                fails.append({"site": site, "want": want, "got": got,
+                              "key": "targets:order-not-as-written" if sorted(got) == sorted(want) else "targets:list-differs"})
+    return fails, n
 
 
 def quoted_keys(msg):
@@ -823,6 +915,15 @@ def run(ctx):
                        {"job": job, "forward": cases[i][0], "meta": cases[i][1], "seed": seeds[0], "differing": differing[:10], "kind": "order"})
     rawset = 0
     refusal_reqs, refusal_meta, refusal_breaks = [], [], []
+    # the target list every flag list spells (model), for the programs that carry explicit lists
+    site_cases = [i for i, (job, meta) in enumerate(cases) if meta.get("target_sites")]
+    site_answers = ctx.driver.batch([{"op": "c10.targets", "keys": list(tables["targets"]), "sites": [x["flags"] for x in cases[i][1]["target_sites"]]}
+                                     for i in site_cases])
+    predicted_lists = {}
+    for i, a in zip(site_cases, site_answers):
+        if "error" in a:
+            raise RuntimeError(f"driver error {a}")
+        predicted_lists[i] = a["targets"]
     for i, (job, meta) in enumerate(cases):
         views = {}
         for s in seeds:
@@ -836,6 +937,20 @@ def run(ctx):
         ctx.stat("seed_runs", len(seeds))
         ctx.stat("seed_files_compared", len(views[seeds[0]]["files"]) * len(seeds))
         base = views[seeds[0]]
+        if i in predicted_lists:
+            # ---- specification + correspondence: the lists are the ones the flags spell, in that order, under every seed
+            ctx.stat("programs_with_explicit_target_lists")
+            for s in seeds:
+                tf, nsites = target_list_fails(meta["target_sites"], predicted_lists[i], per_seed[s][i]["calls"][0])
+                ctx.stat("target_lists_compared", nsites)
+                ctx.stat("inline_function_target_lists_compared", sum(1 for x in meta["target_sites"] if x["kind"] == "inline") if nsites else 0)
+                if tf:
+                    f = tf[0]
+                    ctx.report(f["key"], f"under PYTHONHASHSEED={s} the {f['site']['kind']} declaration {f['site']['q'] or ''} written with the targets "
+                                         f"'{' '.join(f['site']['flags'])}' carries {json.dumps(f['got'])[:200]}; the flags spell {f['want']} "
+                                         f"(for an inline function type this list is part of its name, hence of file names and include lines)",
+                               {"job": job, "meta": meta, "seeds": [s, s], "failure": f, "kind": "targets", "predicted": predicted_lists[i]})
+                    break
         if meta["kind"].startswith("refused:"):
             ctx.stat("refused_" + meta["kind"].split(":")[1])
             refused_n = sum(1 for d in base["diags"] if not d[-5])
@@ -1066,6 +1181,7 @@ def run(ctx):
         "Dom freshApiPerReport: the report is a function of the whole call history of the API object (known finding)",
         "target_order_irrelevant assumes that different targets write different paths (disjoint output directories, C14)",
         "digests are compared after replacing the sandbox root; hash seeds 0-3 (quick) / 0-15 (thorough)",
+        "target lists: `c10.targets` models `visitTargets` + `or self.target_keys`; a record whose flags evaluate to the empty list is outside the generated class (every generated list leaves >= 2 targets)",
         "which file an @import / @extern resolves to, and whether the front end accepts a program, is taken from the fresh-process parse of the same (configuration, program) (the search order itself is C16's); the model's program is the program as resolved under that configuration",
         "regeneration histories edit the IDL between two runs of one API object; output of a *different process* left in the directories is covered only through the same file system state (C08's regeneration stream uses a second API object)",
     ]
@@ -1078,6 +1194,11 @@ def replay(ctx, body):
         print(json.dumps({"seeds": body["seeds"], "equal": same,
                           "differing": sorted(p for p in outs[0]["files"] if outs[0]["files"].get(p) != outs[1]["files"].get(p))[:10]}, indent=1))
         return same
+    if body.get("kind") == "targets":
+        o = sysgen.run_jobs(ctx, [body["job"]], workers=1, hashseed=body["seeds"][0], tag="c10r")[0]
+        tf, n = target_list_fails(body["meta"]["target_sites"], body["predicted"], o["calls"][0])
+        print(json.dumps({"seed": body["seeds"][0], "sites_compared": n, "failures": tf[:5]}, indent=1)[:3000])
+        return not tf
     if body.get("kind") == "order":
         a, b = sysgen.run_jobs(ctx, [body["forward"], body["job"]], workers=2, hashseed=body["seed"], tag="c10r")
         fa, fb = obs_digest(a)["files"], obs_digest(b)["files"]
